@@ -35,6 +35,27 @@ func (rwc *readerWithCloser) Close() error {
 	return nil
 }
 
+// validObjectName reports whether an object key can be mapped onto the
+// filesystem without leaving its bucket or aliasing another key: it must be a
+// relative, slash-separated path with no empty, "." or ".." segments.
+// 'path.Join(bucket, "../other/key")' would otherwise address another bucket.
+func validObjectName(name string) bool {
+	if name == "" || strings.ContainsRune(name, 0) {
+		return false
+	}
+	for _, segment := range strings.Split(name, "/") {
+		if segment == "" || segment == "." || segment == ".." {
+			return false
+		}
+	}
+	return true
+}
+
+func invalidObjectName(name string) error {
+	return gofakes3.ErrorMessagef(gofakes3.ErrInvalidArgument,
+		"object key %q cannot be stored by this backend: keys must not contain empty, '.' or '..' path segments", name)
+}
+
 // removeAll removes name and everything beneath it by walking the tree rather
 // than delegating to Fs.RemoveAll: afero.MemMapFs.RemoveAll removes every
 // entry whose path merely starts with name, so removing "bucket" would also
